@@ -5,6 +5,17 @@ ALL = ["C%02d" % i for i in range(1, 21)]
 TB = ("Trusted: Coq 8.16.1 kernel + bytecode VM (vm_compute; no native_compute); the Python harness "
       "(generators, exact float->rational conversion, epgpy drivers); NumPy/CPython. ")
 CLAIMED = {
+ "C13": dict(
+   text="Machine-checked proof (Coq), PARTIAL: the 1-D truncation clauses are proved on the generic model -- trunc_cap (no state beyond the cap), "
+        "trunc_horizon (for every program, steps of any size and sign, the truncated run equals the untruncated one on all phase states "
+        "|k| <= 2m+1-A with A the accumulated absolute shift since the last reset, by induction over programs with a contamination-front invariant) "
+        "and trunc_F0_Z0_exact (every F0/Z0 acquisition with A <= 2m+1 is identical). The n-D truncation, pruning-bound, prune=0, partials-pruner and "
+        "merging clauses are NOT theorems: they are run as oracles on the implementation (truncated vs untruncated incl. caps lowered mid-sequence, "
+        "pruned vs unpruned against 2*eps*cumulative state count, merged vs unmerged value at position 0) -- testing.",
+   design_ref="DESIGN.md section 4 C13",
+   note=TB + "Model/Ops.v apply_shift (resize(min(n+|d|, nmax)) + in-place shift) tied to shift.py by exact correspondence of truncated programs (global max_nstate and per-operator nmax). "
+        "Axioms: none.",
+   technique="Coq proof (contamination-front invariant by induction over programs) + exact correspondence + implementation-side oracles"),
  "C03": dict(
    text="Machine-checked proof (Coq), PARTIAL: (a) all 17 closed-form second-derivative arrays of T, Phi, E, P, R, TRANSLATED from the source "
         "on every run, are proved to be the derivatives (Coquelicot is_derive) of the translated first-derivative arrays, for BOTH orders of "
